@@ -234,6 +234,77 @@ func (n *NIter) MoveNext() bool {
 func (n *NIter) Current() int { return n.cur }
 func (n *NIter) Stop()        { n.stop() }
 
+// Box is the element type of generators yielding freshly allocated objects.
+type Box struct{ V int }
+
+// YT / PullT / NIterT: the native reference for generators of any element type.
+func YT[T any](yield func(T) bool, v T) {
+	if !yield(v) {
+		panic(sentinel)
+	}
+}
+
+type NIterT[T any] struct {
+	next func() (T, bool)
+	stop func()
+	cur  T
+}
+
+func PullT[T any](f func(yield func(T) bool)) *NIterT[T] {
+	var seq iter.Seq[T] = func(yield func(T) bool) {
+		defer func() {
+			if p := recover(); p != nil && p != any(sentinel) {
+				panic(p)
+			}
+		}()
+		f(yield)
+	}
+	next, stop := iter.Pull(seq)
+	return &NIterT[T]{next: next, stop: stop}
+}
+
+func (n *NIterT[T]) MoveNext() bool {
+	v, ok := n.next()
+	var zero T
+	if ok {
+		n.cur = v
+	} else {
+		n.cur = zero
+	}
+	return ok
+}
+func (n *NIterT[T]) Current() T { return n.cur }
+func (n *NIterT[T]) Stop()      { n.stop() }
+
+// BoxIt adapts an iterator of *Box to the int protocol of the drivers: the consumer reads the
+// field of every delivered object once and then MUTATES the object (so a generator that hands out
+// the same object twice, instead of a fresh one per evaluation, is observable).
+type BoxIt struct {
+	In interface {
+		MoveNext() bool
+		Current() *Box
+	}
+	cur int
+}
+
+func (b *BoxIt) MoveNext() bool {
+	ok := b.In.MoveNext()
+	b.cur = 0
+	if ok {
+		if p := b.In.Current(); p != nil {
+			b.cur = p.V
+			p.V += 98
+		}
+	}
+	return ok
+}
+func (b *BoxIt) Current() int { return b.cur }
+func (b *BoxIt) Stop() {
+	if s, ok := b.In.(interface{ Stop() }); ok {
+		s.Stop()
+	}
+}
+
 // YF is `YieldFrom(it)` of the native rendering.
 func YF(yield func(int) bool, it *NIter) {
 	for it.MoveNext() {
